@@ -257,8 +257,20 @@ def check(ax, case, rec):
             rec.label("fortran-ordered-field-values")
         vals = rng.uniform(-1, 1, (len(pts), d))
         kw = {"apply_on": apply_on} if apply_on else {}
+        ids = pts
+        # the selection of points in the styles numpy indexing accepts: ids as array / list / from the end, or a boolean point mask
+        style = (c["lseed"] // 6 + len(X) + len(pts)) % 4
+        if style == 1:
+            pts = [int(p_) for p_ in ids]
+        elif style == 2:
+            pts = ids - len(X)
+            rec.label("points-counted-from-the-end")
+        elif style == 3:
+            pts = np.zeros(len(X), bool)
+            pts[ids] = True
+            rec.label("points-as-boolean-mask")
         if c["preload"]:
-            it = fem.PointLoad(fc, points=pts, values=rng.uniform(-1, 1, (len(pts), d)), axisymmetric=axi, **kw)
+            it = fem.PointLoad(fc, points=pts, values=rng.uniform(-1, 1, (len(ids), d)), axisymmetric=axi, **kw)
             it.assemble.vector(fc)
             it.update(vals)
             rec.label("updated-values")
@@ -266,6 +278,7 @@ def check(ax, case, rec):
             it = fem.PointLoad(fc, points=pts, values=vals, axisymmetric=axi, **kw)
         r = np.asarray(it.assemble.vector(fc).toarray()).ravel()
         ref = np.zeros((len(X), d))
+        pts = ids
         ref[pts] = vals * (2 * np.pi * X[pts, 1:2] if axi else 1.0)
         off = int(sum(fc.fieldsizes[:apply_on]))
         n0 = ref.size
